@@ -82,6 +82,9 @@ def row_faults(asset: str, other_asset: str, r: Dict[str, Any]) -> List[Dict[str
             add("negative-amount", cin="-1")
         add("zero-spot-price", spot="0")
         add("crypto-and-fiat-fee", cfee="0.001", ffee="1")
+        # both cells filled, one of them with an explicit 0: still two fees given (the pinned tree tests "is not None")
+        add("crypto-and-fiat-fee", cfee="0.001", ffee="0")
+        add("crypto-and-fiat-fee", cfee="0", ffee="1")
         add("non-numeric-number", cin={"raw": "12abc"})
         add("non-numeric-number", spot={"raw": "n/a"})
     elif table == "OUT":
@@ -120,6 +123,11 @@ def structure_faults(asset: str, hist: Dict[str, Any]) -> List[Dict[str, Any]]:
             out.append({"kind": "grid", "class": "missing-table-end", "asset": asset, "table": table})
             out.append({"kind": "grid", "class": "nested-table", "asset": asset, "table": table})
             out.append({"kind": "grid", "class": "repeated-table", "asset": asset, "table": table})
+            # the repeat (or the nested keyword) spelled in another letter case: keywords are matched case-insensitively, so it is
+            # the same table again (a tree that matched them exactly would see data outside a table - a fault either way)
+            out.append({"kind": "grid", "class": "repeated-table", "asset": asset, "table": table, "spelling": "lower"})
+            out.append({"kind": "grid", "class": "repeated-table", "asset": asset, "table": table, "spelling": "title"})
+            out.append({"kind": "grid", "class": "nested-table", "asset": asset, "table": table, "spelling": "lower"})
             out.append({"kind": "grid", "class": "data-outside-table", "asset": asset, "table": table})
     out.append({"kind": "grid", "class": "spurious-table-end", "asset": asset, "table": "start"})
     out.append({"kind": "grid", "class": "spurious-table-end", "asset": asset, "table": "end"})
@@ -206,6 +214,7 @@ def _table_bounds(grid: List[List[Any]], table: str) -> Optional[Tuple[int, int]
 
 def grid_edit_for(fault: Dict[str, Any]) -> Callable[[List[List[Any]]], None]:
     cls, table = fault["class"], fault["table"]
+    spell = {"lower": str.lower, "title": str.title}.get(fault.get("spelling", ""), str)
 
     def edit(grid: List[List[Any]]) -> None:
         if cls == "spurious-table-end":
@@ -221,9 +230,9 @@ def grid_edit_for(fault: Dict[str, Any]) -> Callable[[List[List[Any]]], None]:
         if cls == "missing-table-end":
             del grid[end]
         elif cls == "nested-table":
-            grid.insert(start + 3 if end - start > 3 else end, ["OUT" if table != "OUT" else "IN"])
+            grid.insert(start + 3 if end - start > 3 else end, [spell("OUT" if table != "OUT" else "IN")])
         elif cls == "repeated-table":
-            grid.extend([[table], list(grid[start + 1]), list(grid[start + 2]), ["TABLE END"]])
+            grid.extend([[spell(table)], list(grid[start + 1]), list(grid[start + 2]), ["TABLE END"]])
         elif cls == "data-outside-table":
             grid.insert(end + 1, list(grid[start + 2]))
         elif cls == "missing-in-table":
@@ -386,7 +395,7 @@ def judge(ctx: Any, fault: Dict[str, Any], res: Any, before: Dict[str, str], aft
     ctx.count("executions")
     ctx.count("faulted_runs")
     ctx.tag("tag_class", fault["class"])
-    where = {k: v for k, v in fault.items() if k in ("asset", "table", "uid", "section", "field", "country", "args", "env", "edit")}
+    where = {k: v for k, v in fault.items() if k in ("asset", "table", "uid", "section", "field", "country", "args", "env", "edit", "spelling")}
     ctx.distinct("nontrivial", {"base": case["writer_seed"], "fault": fault})
     detail = {"class": fault["class"], "where": where}
     if res.timed_out:
